@@ -33,28 +33,54 @@ event is the final `end`.
         if listener(begin) * listener(orb) > 0: begin = orb
         else: end = orb
         step = (end.date - begin.date) / 2
--/
-def bisect2 (f : Int → Int) (b e : Int) : Int × Int :=
+
+This is the loop as it stands, by well-founded recursion on `|end − begin|`: the termination proof (every pass
+strictly shrinks the bracket, also with round-half-even halving and for negative steps) is part of the definition. -/
+def bisect2wf (f : Int → Int) (b e : Int) : Int × Int :=
   if 1 ≤ (halfEven (e - b)).natAbs then
-    if 0 < f b * f (b + halfEven (e - b)) then bisect2 f (b + halfEven (e - b)) e
-    else bisect2 f b (b + halfEven (e - b))
+    if 0 < f b * f (b + halfEven (e - b)) then bisect2wf f (b + halfEven (e - b)) e
+    else bisect2wf f b (b + halfEven (e - b))
   else (b, e)
 termination_by (e - b).natAbs
 decreasing_by
   all_goals (have := halfEven_spec (e - b); omega)
 
-/-- date of the orbit returned by `_bisect` -/
-def bisect (f : Int → Int) (b e : Int) : Int := (bisect2 f b e).2
-
 /-- number of passes through the `while` loop of `_bisect` -/
-def bisectSteps (f : Int → Int) (b e : Int) : Nat :=
+def bisectStepsWf (f : Int → Int) (b e : Int) : Nat :=
   if 1 ≤ (halfEven (e - b)).natAbs then
-    if 0 < f b * f (b + halfEven (e - b)) then bisectSteps f (b + halfEven (e - b)) e + 1
-    else bisectSteps f b (b + halfEven (e - b)) + 1
+    if 0 < f b * f (b + halfEven (e - b)) then bisectStepsWf f (b + halfEven (e - b)) e + 1
+    else bisectStepsWf f b (b + halfEven (e - b)) + 1
   else 0
 termination_by (e - b).natAbs
 decreasing_by
   all_goals (have := halfEven_spec (e - b); omega)
+
+/-- the same loop with an explicit bound on the number of passes (structural recursion: evaluates in the kernel
+and in the driver); `Lemmas/Listen.lean` proves that with `|end − begin|` passes allowed it IS the loop above. -/
+def bisectFuel : Nat → (Int → Int) → Int → Int → Int × Int
+  | 0, _, b, e => (b, e)
+  | n + 1, f, b, e =>
+    if 1 ≤ (halfEven (e - b)).natAbs then
+      if 0 < f b * f (b + halfEven (e - b)) then bisectFuel n f (b + halfEven (e - b)) e
+      else bisectFuel n f b (b + halfEven (e - b))
+    else (b, e)
+
+def bisectStepsFuel : Nat → (Int → Int) → Int → Int → Nat
+  | 0, _, _, _ => 0
+  | n + 1, f, b, e =>
+    if 1 ≤ (halfEven (e - b)).natAbs then
+      if 0 < f b * f (b + halfEven (e - b)) then bisectStepsFuel n f (b + halfEven (e - b)) e + 1
+      else bisectStepsFuel n f b (b + halfEven (e - b)) + 1
+    else 0
+
+/-- final `(begin, end)` of `_bisect` (`= bisect2wf`, see `bisect2_eq_wf`) -/
+def bisect2 (f : Int → Int) (b e : Int) : Int × Int := bisectFuel (e - b).natAbs f b e
+
+/-- date of the orbit returned by `_bisect` -/
+def bisect (f : Int → Int) (b e : Int) : Int := (bisect2 f b e).2
+
+/-- number of passes through the `while` loop of `_bisect` (`= bisectStepsWf`) -/
+def bisectSteps (f : Int → Int) (b e : Int) : Nat := bisectStepsFuel (e - b).natAbs f b e
 
 /-- A listener object. -/
 structure Lst where
